@@ -356,6 +356,13 @@ def deliver_burst(world, t, chunks):
         t.deliver(c)
 
 
+def deliver_multi(world, items):
+    """Several sockets readable in one reactor iteration (Twisted: doRead() of one after the other; a protocol is done
+    with its octets when dataReceived() returns, so nothing distinguishes this from consecutive iterations)."""
+    for t, c in items:
+        t.deliver(c)
+
+
 def peer_fin(world, t):
     t.peer_fin()
 
